@@ -286,7 +286,7 @@ func runC18(r *mc.Run) {
 		depth = 4
 		r.SetBudget(13 * 60 * 1e9)
 	} else {
-		r.SetBudget(170 * 1e9)
+		r.SetBudget(300 * 1e9)
 	}
 	r.Bounds["depth_blocks"] = depth
 	r.Rule = "tree search over block histories of the real application producing pending / active / zero-power / jailed-path / tombstoned / exiting validators, pending and boarding voters (also several membership changes of a group of four queued between two elections), in-flight and cancelling withdrawals (also two batches in flight that bitcoin confirms in either order), non-empty queues, pending unlocks, voted hashes, credited deposits and bridge-parameter corners; in every visited state: ExportAppStateAndValidators -> InitChain on a fresh App must succeed, return the exported active set, re-export identically (per module), reproduce every module store (boarding queue as a multiset), answer every gRPC query of the goat modules and the auth account queries identically (every method, every argument denoting something in the state plus unknown ones, through the registered query routes), satisfy the ranking / set / group invariants, reproduce the same stores when initialised with a genesis time one hour later, and produce a block"
